@@ -87,7 +87,48 @@ func c06MapOrderStaticRun(c *Ctx, cycles bool) {
 	m := c06StaticFeed(c)
 	header := 0
 	if !cycles {
-		header = c.Free("headers", 3) // as generated; agency.txt lacks required columns; padded header cells
+		header = c.Free("headers", 4) // as generated; agency.txt lacks required columns; padded header cells; tables only in sub-folders
+	}
+	if header == 3 {
+		// transfers.txt and calendar_dates.txt are not in the archive; two sub-folders each hold a (different) file of
+		// either name: whatever the parser makes of those, it makes the same of them every time
+		var members []rawMember
+		for _, t := range m.Tables {
+			content := renderCSV(t, presentation{})
+			if t.File == "transfers.txt" || t.File == "calendar_dates.txt" {
+				members = append(members, rawMember{"gtfs/" + t.File, content})
+				older := t.clone()
+				if len(older.Rows) > 1 {
+					older.Rows = older.Rows[1:]
+				}
+				members = append(members, rawMember{"gtfs_previous/" + t.File, renderCSV(older, presentation{})}, rawMember{"old/2023/" + t.File, renderCSV(older, presentation{})})
+				continue
+			}
+			members = append(members, rawMember{t.File, content})
+		}
+		b := buildZip(members, false)
+		c.Input(hash64(string(b)), true, func() string {
+			return "transfers.txt and calendar_dates.txt only inside gtfs/, gtfs_previous/ and old/2023/"
+		})
+		describe := func() string {
+			r, err, _ := parseStaticGuarded(c, b, gtfs.ParseStaticOptions{})
+			if err != nil {
+				return "error: " + err.Error()
+			}
+			return dumpStatic(r, staticDumpOpts{})
+		}
+		ref := describe()
+		c.SetMapMode(mapFree)
+		got := describe()
+		c.SetMapMode(mapFixed)
+		c.Steps(2)
+		c.Outcome(got)
+		c.Relate("static-pure-function", string(b), got)
+		if ref != got {
+			c.Fail("static/"+classifyDiff(ref, got), "the same archive (optional tables only inside sub-folders) gives another result under another map iteration order\n%s", diffLines(ref, got))
+		}
+		c.Witness("tables_only_in_sub_folders")
+		return
 	}
 	if header == 2 {
 		// no column is called stop_name / trip_headsign, two are called so up to blanks (with different values):
